@@ -1,0 +1,29 @@
+// Copyright 2023 The Go Authors. All rights reserved.
+// Use of this source code is governed by a BSD-style
+// license that can be found in the LICENSE file.
+
+//go:build verif && (!goexperiment.jsonv2 || !go1.25)
+
+package jsonwire
+
+import "io"
+
+// Contracts for wire.go.
+
+//@ spec isUnexpectedEOF
+func isUnexpectedEOF(err error) bool { return err == io.ErrUnexpectedEOF }
+
+// The error constructors return a fresh *InvalidTextError: never nil and
+// never one of the sentinel errors.
+
+//@ func NewInvalidCharacterError
+//@ property C01 C20
+//@ ensures nonnil: result != nil
+//@ ensures not-eof: !isUnexpectedEOF(result)
+//@ ensures not-utf8: result != ErrInvalidUTF8
+
+//@ func NewInvalidEscapeSequenceError
+//@ property C01 C20
+//@ ensures nonnil: result != nil
+//@ ensures not-eof: !isUnexpectedEOF(result)
+//@ ensures not-utf8: result != ErrInvalidUTF8
